@@ -78,8 +78,9 @@ where
             *this.is_seeking = true;
         }
 
-        ready!(reader.poll_complete(cx))?;
+        let result = ready!(reader.poll_complete(cx));
         *this.is_seeking = false;
+        result?;
 
         self.inner.read_buffer_mut().clear();
 
